@@ -41,12 +41,13 @@ func TestVerifC12MultiTCP(t *testing.T) {
 			t.Fatal(err)
 		}
 		defer ups[k].l.Close()
-		l, err := net.Listen("tcp", "127.0.0.1:0")
+		// bound for the length of the test, never listening: refused, and no other process can be given the port
+		a, release, err := verifx.C12DownAddr()
 		if err != nil {
 			t.Fatal(err)
 		}
-		down[k] = l.Addr().String()
-		l.Close()
+		defer release()
+		down[k] = a
 	}
 	var cur atomic.Pointer[route.Table]
 	lookup := func(host string) *route.Target {
